@@ -105,6 +105,12 @@ var searchRoots = []searchRoot{
 	{"4k3/8/8/8/8/8/1pn5/K1B5 w - - 0 1", nil, "insufficient"},
 	{"k7/p7/P7/8/8/7p/7P/7K w - - 0 1", []string{"h1g1", "a8b8", "g1h1", "b8a8", "h1g1", "a8b8", "g1h1"}, "net repetition"},
 	{"k7/p7/P7/8/8/7p/7P/7K w - - 0 1", []string{"h1g1", "a8b8", "g1h1", "b8a8", "h1g1", "a8b8"}, "net repetition"},
+	// the same with UNEQUAL material, so that a draw that goes unnoticed changes the value
+	{"7k/8/8/8/8/8/8/R6K w - - 0 1", []string{"a1a2", "h8g8", "a2a1", "g8h8", "a1a2", "h8g8", "a2a1"}, "net repetition"},
+	{"7k/8/8/8/8/8/8/R6K w - - 0 1", []string{"a1a2", "h8g8", "a2a1", "g8h8", "a1a2", "h8g8"}, "net repetition"},
+	{"7k/8/8/8/8/8/8/R6K w - - 0 1", []string{"a1a2", "h8g8", "a2a1", "g8h8", "a1a2"}, "net repetition"},
+	{"7k/8/8/8/8/8/8/R6K b - - 98 60", nil, "net fifty"},
+	{"7k/8/8/8/8/8/8/R6K w - - 97 60", nil, "net fifty"},
 	{"k7/p7/P7/8/8/7p/7P/7K w - - 97 60", nil, "net fifty"},
 	{"k7/p7/P7/8/8/7p/7P/7K b - - 99 60", nil, "net fifty"},
 	{"r3k2r/8/8/8/8/8/8/R3K2R w KQkq - 0 1", nil, "castle"},
